@@ -5,12 +5,16 @@ From TL Require Import Lib.Base Lib.GenTypes Gen.MagicGen Model.MagicNum Model.M
      Proofs.MagicChars Proofs.MagicExtract Proofs.MagicFacts.
 
 Arguments ts_upper_name : simpl never.
-Arguments doc_upper_name : simpl never.
-Arguments has_lower : simpl never.
+Arguments ts_const_name : simpl never.
+Arguments spec_upper_name : simpl never.
 
 (* outside the defect classes of the flags that are on *)
+Definition ts_name_plain (q : mquirks) (name : string) : bool :=
+  negb (q_ts_single_letter_const q) || negb (ts_upper_name name) || (2 <=? String.length name).
+
 Definition ts_file_plain (q : mquirks) (f : file) : bool :=
-  negb (q_ts_test_marker_anywhere q) || Bool.eqb (ts_code_is_test (f_name f)) (ts_doc_is_test (f_name f)).
+  (negb (q_ts_test_marker_anywhere q) || Bool.eqb (ts_code_is_test (f_name f)) (ts_doc_is_test (f_name f)))
+  && forallb (fun sc => forallb (fun s => ts_name_plain q (s_name s)) (sc_sites sc)) (f_scopes f).
 
 Lemma ts_is_enum_app a b : ts_is_enum (a ++ b) = ts_is_enum a || ts_is_enum b.
 Proof. apply existsb_app. Qed.
@@ -19,18 +23,19 @@ Lemma ts_scope_no_enum k : ts_is_enum (ts_scope_chain k) = false.
 Proof. destruct k; reflexivity. Qed.
 
 (* enum member or UPPER_CASE declaration, as the analyzer sees it = constant definition, as documented *)
-Lemma ts_ctx_exempt k c name :
-  ctx_ok MTs k c = true -> name_ok c name = true ->
-  ts_is_enum (ts_ctx_chain c name ++ ts_scope_chain k) || ts_is_const_def (ts_ctx_chain c name ++ ts_scope_chain k)
+Lemma ts_ctx_exempt q k c name :
+  ctx_ok MTs k c = true -> name_ok MTs c name = true -> ts_name_plain q name = true ->
+  ts_is_enum (ts_ctx_chain c name ++ ts_scope_chain k) || ts_is_const_def q (ts_ctx_chain c name ++ ts_scope_chain k)
   = ctx_is_const_def c.
 Proof.
-  intros Hc Hn. rewrite ts_is_enum_app, ts_scope_no_enum, orb_false_r.
+  intros Hc Hn Hp. rewrite ts_is_enum_app, ts_scope_no_enum, orb_false_r.
+  assert (E := ts_const_spec q name Hp).
   unfold name_ok in Hn.
   destruct c; cbn [ctx_is_const_def] in *; try (cbn in Hc; discriminate);
-    try (apply andb_prop in Hn; destruct Hn as [Hn _]; apply andb_prop in Hn; destruct Hn as [Hn _]);
+    try (apply andb_prop in Hn; destruct Hn as [Hn _]; apply andb_prop in Hn; destruct Hn as [Hn _]; apply negb_true_iff in Hn);
     cbn [ts_ctx_chain ts_decl tnames tn map app ts_is_enum existsb ta_type ts_is_const_def ts_decl_parent ts_is_decl ta_ident];
     cbn;
-    try rewrite (upper_ts name Hn); try rewrite (lower_ts name Hn); try reflexivity.
+    try rewrite E; try rewrite Hn; try reflexivity.
   destruct k; try (cbn in Hc; discriminate); reflexivity.
 Qed.
 
@@ -50,6 +55,7 @@ Section Site.
   Variables (q : mquirks) (cfg : mconfig) (f : file) (sc : scope) (s : site).
   Hypothesis Hname : negb (q_ts_test_marker_anywhere q) || Bool.eqb (ts_code_is_test (f_name f)) (ts_doc_is_test (f_name f)) = true.
   Hypothesis Hsite : site_good MTs (sc_kind sc) s = true.
+  Hypothesis Hnp : ts_name_plain q (s_name s) = true.
 
   Lemma ts_is_test_spec : ts_is_test q (f_name f) = spec_file_exempt MTs f.
   Proof.
@@ -72,7 +78,7 @@ Section Site.
     - rewrite (ts_numeric_type l Hnum). replace (String.eqb "number" ts_number_type) with true by reflexivity. cbn [negb].
       destruct (lit_raw_numeric l Hnum) as [raw Hr].
       rewrite (ts_lit_extract q l raw Hlits Hr). unfold lit_value. rewrite Hr. cbn [option_map].
-      rewrite allowed_spec, ts_is_test_spec, (ts_ctx_exempt _ _ _ Hctx Hnm).
+      rewrite allowed_spec, ts_is_test_spec, (ts_ctx_exempt q _ _ _ Hctx Hnm Hnp).
       unfold spec_site_exempt. cbn [orb]. rewrite orb_false_r.
       destruct (nmem (norm raw) (spec_allowed cfg)), (spec_file_exempt MTs f), (ctx_is_const_def (s_ctx s)); reflexivity.
     - rewrite (ts_nonnumeric_type l Hnum). cbn [negb]. rewrite (lit_value_numeric l Hnum). reflexivity.
@@ -99,17 +105,21 @@ End Site.
 Theorem ts_report_guarded q cfg f :
   file_good MTs f = true -> ts_file_plain q f = true -> ts_report q cfg f = spec_report MTs cfg f.
 Proof.
-  intros Hg Hname. unfold ts_file_plain in Hname.
+  intros Hg Hp. unfold ts_file_plain in Hp. apply andb_prop in Hp. destruct Hp as [Hname Hplain].
   unfold file_good in Hg. apply andb_prop in Hg. destruct Hg as [_ Hscopes].
   unfold ts_report, to_ts, spec_report. rewrite flat_map_flat_map. apply flat_map_ext_in. intros sc Hsc.
   rewrite flat_map_flat_map. apply flat_map_ext_in. intros s Hs.
-  rewrite forallb_forall in Hscopes. specialize (Hscopes sc Hsc).
+  rewrite forallb_forall in Hscopes, Hplain. specialize (Hscopes sc Hsc). specialize (Hplain sc Hsc).
   unfold scope_good in Hscopes. apply andb_prop in Hscopes. destruct Hscopes as [Hsites _].
-  rewrite forallb_forall in Hsites.
-  apply ts_site_exact; [exact Hname | apply Hsites; exact Hs].
+  rewrite forallb_forall in Hsites, Hplain.
+  apply ts_site_exact; [exact Hname | apply Hsites; exact Hs | apply Hplain; exact Hs].
 Qed.
 
 (* the prefix test and the suffix stripping may be the source's own (flags on) or the property's (flags off) *)
 Theorem ts_report_exact q cfg f :
-  q_ts_test_marker_anywhere q = false -> file_good MTs f = true -> ts_report q cfg f = spec_report MTs cfg f.
-Proof. intros H3 Hg. apply ts_report_guarded; [exact Hg | unfold ts_file_plain; rewrite H3; reflexivity]. Qed.
+  q_ts_test_marker_anywhere q = false -> q_ts_single_letter_const q = false ->
+  file_good MTs f = true -> ts_report q cfg f = spec_report MTs cfg f.
+Proof.
+  intros H3 H4 Hg. apply ts_report_guarded; [exact Hg|]. unfold ts_file_plain, ts_name_plain. rewrite H3, H4. cbn [negb orb andb].
+  rewrite forallb_forall. intros sc _. rewrite forallb_forall. intros s _. reflexivity.
+Qed.
